@@ -525,9 +525,23 @@ async fn drive(env: &Env, case: &Case, dir: &CaseDir, spare_end: bool) -> Result
 }
 
 fn check(env: &Env, case: &Case) -> CaseResult {
+    let mut last = check_inner(env, case, env.k_c10_open);
+    // sqlx gives up acquiring a pooled connection after 30 s of wall-clock time. That is how a
+    // genuine "later transaction can never start" shows up, but also how a starved machine shows
+    // up (seen once in ~34 000 multi-thread cases, never reproduced). A wall-clock effect must not
+    // decide the verdict: the case is re-run and only a timeout that reproduces twice is reported.
+    let mut retries = 0;
+    while retries < 2 && matches!(&last, Err(e) if e.contains("pool timed out")) {
+        retries += 1;
+        last = check_inner(env, case, env.k_c10_open);
+    }
+    if retries > 0 {
+        if let Ok(ok) = last {
+            return Ok(ok.label("pool_timeout_not_reproduced"));
+        }
+    }
     // Whether a cancellation collides with the SQLite worker is timing-dependent; an explicit
     // `--replay` therefore runs the saved case repeatedly and reports the first failure.
-    let mut last = check_inner(env, case, env.k_c10_open);
     for _ in 0..env.replay_repeats {
         if last.is_err() {
             break;
@@ -689,7 +703,9 @@ pub fn run(mut ctx: Ctx) -> ! {
             |c| check(&env, c),
         );
     }
-    if ctx.is_thorough() && ctx.violations() == 0 {
+    // Generates cases in the thorough tier only (0 quick cases); saved replays of this part run in
+    // every tier.
+    if ctx.violations() == 0 {
         ctx.run_prop(
             Part::new(
                 "writers_multi_thread",
